@@ -12,6 +12,7 @@ type MonFlags struct {
 	Ctx bool // per live context: batch start heights, steadiness, largest total    — C10
 	CB  bool // response callbacks seen per (context, batch)                       — C12
 	Kill bool // contexts for which a kill succeeded                                — C16
+	Restart bool // contexts the owning module started again from inside a state callback — C11 (re-entrant run)
 	Dis  bool // block time at which each binding last became unavailable            — C03
 }
 
@@ -42,12 +43,13 @@ type Mon struct {
 	CB  map[string]int     `json:"cb,omitempty"`
 	Killed map[string]bool `json:"killed,omitempty"`
 	Dis    map[string]int64 `json:"dis,omitempty"`
+	Restarted map[string]bool `json:"restarted,omitempty"`
 }
 
 func NewMon() *Mon { return &Mon{} }
 
 func (m *Mon) Bytes() []byte {
-	if len(m.Vol) == 0 && len(m.Req) == 0 && len(m.Ctx) == 0 && len(m.CB) == 0 && len(m.Killed) == 0 && len(m.Dis) == 0 {
+	if len(m.Vol) == 0 && len(m.Req) == 0 && len(m.Ctx) == 0 && len(m.CB) == 0 && len(m.Killed) == 0 && len(m.Dis) == 0 && len(m.Restarted) == 0 {
 		return nil
 	}
 	b, err := json.Marshal(m) // map keys are emitted sorted: canonical
@@ -100,6 +102,12 @@ func (m *Mon) clone() *Mon {
 			c.Dis[k] = v
 		}
 	}
+	if len(m.Restarted) > 0 {
+		c.Restarted = make(map[string]bool, len(m.Restarted))
+		for k, v := range m.Restarted {
+			c.Restarted[k] = v
+		}
+	}
 	if len(m.Killed) > 0 {
 		c.Killed = make(map[string]bool, len(m.Killed))
 		for k, v := range m.Killed {
@@ -115,7 +123,7 @@ func volKey(consumer []byte, svc string, prov []byte) string {
 
 // Update computes the monitor of the successor from observed facts only.
 func (m *Mon) Update(f MonFlags, sc *Scenario, pre *View, a Action, res *StepResult, post *View) *Mon {
-	if !f.Vol && !f.Req && !f.Ctx && !f.CB && !f.Kill && !f.Dis {
+	if !f.Vol && !f.Req && !f.Ctx && !f.CB && !f.Kill && !f.Dis && !f.Restart {
 		return m
 	}
 	n := m.clone()
@@ -217,12 +225,35 @@ func (m *Mon) Update(f MonFlags, sc *Scenario, pre *View, a Action, res *StepRes
 			}
 		}
 	}
+	if f.Restart {
+		for _, cb := range res.Callbacks {
+			if cb.Kind == "restart" {
+				if n.Restarted == nil {
+					n.Restarted = map[string]bool{}
+				}
+				n.Restarted[cb.Ctx] = true
+			}
+		}
+		for id := range n.Restarted {
+			if _, ok := post.Ctxs[id]; !ok {
+				delete(n.Restarted, id)
+			}
+		}
+	}
 	if f.Kill {
 		if (a.Kind == "kill" || a.Kind == "mkill") && res.OK() {
 			if n.Killed == nil {
 				n.Killed = map[string]bool{}
 			}
 			n.Killed[a.Ctx] = true
+		}
+		for _, cb := range res.Callbacks { // kills made by the owning module from inside a callback
+			if cb.Kind == "kill" || cb.Kind == "selfkill" {
+				if n.Killed == nil {
+					n.Killed = map[string]bool{}
+				}
+				n.Killed[cb.Ctx] = true
+			}
 		}
 		for id := range n.Killed {
 			if _, ok := post.Ctxs[id]; !ok {
